@@ -244,16 +244,22 @@ impl Interpreter {
                 state.stack.push_bytes(x2)
             }
             OpCodes::OP_CAT => {
-                let mut x1 = state.stack.pop_bytes()?;
+                // x1 x2 -> x1 || x2
                 let x2 = state.stack.pop_bytes()?;
+                let mut x1 = state.stack.pop_bytes()?;
 
                 x1.extend_from_slice(&x2);
 
                 state.stack.push_bytes(x1)
             }
             OpCodes::OP_SPLIT => {
-                let x = state.stack.pop_bytes()?;
+                // x n -> x[..n] x[n..]
                 let n = state.stack.pop_number()?;
+                let x = state.stack.pop_bytes()?;
+
+                if n < 0 || n as usize > x.len() {
+                    return Err(InterpreterError::InvalidStackOperation("OP_SPLIT position is out of range"));
+                }
 
                 let (x1, x2) = x.split_at(n as usize);
                 state.stack.push_bytes(x1.to_vec());
